@@ -102,7 +102,7 @@ def shrink_chart(sc):
 
 
 def run_and_judge(sc, sched, oracles, max_steps=400000, budget_is='inconclusive', sample_every=499,
-                  collect=None, keep_run=False):
+                  collect=None, keep_run=False, tolerate_thread_errors=False):
   """oracles: list of callables(run, res).  Returns RunResult."""
   res = RunResult()
   run, sim, reason = chartworld.run_chart(sc, sched, max_steps=max_steps)
@@ -120,15 +120,16 @@ def run_and_judge(sc, sched, oracles, max_steps=400000, budget_is='inconclusive'
       if stuck:
         res.violate('client-blocked', {'at': stuck[0].desc.split(':')[0]},
                     'the driving thread is blocked for ever at %s (host=%s)' % (stuck[0].desc, sc['host']))
-      elif sim.thread_errors:
+      elif sim.thread_errors and not tolerate_thread_errors:
         common.thread_error_violations(sim, res)
       else:
         for o in oracles:
           o(run, res)
           if res.outcome == 'violation':
             break
-    for s in co.transition_signatures(run):
-      res.nontrivial.append(hash(s))
+    if not sc.get('malform'):
+      for s in co.transition_signatures(run):
+        res.nontrivial.append(hash(s))
     if collect is not None and not run.fatal:
       collect(run, res)
     if keep_run:
